@@ -193,6 +193,73 @@ def LE16_get_hi12 (m : Mem) (X : Nat) : Nat := ((memGet .le 0 m X) >>> 4) &&& 0x
 def LE16_set_hi12 (m : Mem) (v X : Nat) : Nat := memSet .le 0 m (((v <<< 4) ||| ((memGet .le 0 m X) &&& 0xf)) % 65536) X
 end Dot11
 
+
+section LLC   -- little-endian view; src/llc.cpp:88-172, include/tins/llc.h:206-309
+/-- `return header_.dsap & 0x01;`  (group, response) -/
+def LLC_get_lowbit (m : Mem) (X : Nat) : Nat := (memGet .le 0 m X) &&& 0x01
+/-- `if (value) { header_.dsap |= 0x01; } else { header_.dsap &= 0xFE; }` -/
+def LLC_set_lowbit (m : Mem) (v X : Nat) : Nat :=
+  if v ≠ 0 then memSet .le 0 m ((memGet .le 0 m X) ||| 0x01) X else memSet .le 0 m ((memGet .le 0 m X) &&& 0xFE) X
+/-- `ty` is the cached format member `type_` (INFORMATION = 0, SUPERVISORY = 1, UNNUMBERED = 3), fixed per variant.
+    `return (type() == INFORMATION) ? control_field.info.send_seq_num : 0;` -/
+def LLC_get_send_seq (ty : Nat) (m : Mem) (X : Nat) : Nat := if ty = 0 then memGet .le 0 m X else 0
+/-- `if (type() != LLC::INFORMATION) return;  control_field.info.send_seq_num = seq_number;` -/
+def LLC_set_send_seq (ty : Nat) (m : Mem) (v X : Nat) : Nat := if ty ≠ 0 then X else memSet .le 0 m v X
+/-- `switch (type()) { case INFORMATION: return info.recv_seq_num; case SUPERVISORY: return super.recv_seq_num; default: return 0; }`
+    (`m` is the member of the variant's own control format; both structs put it in the same place) -/
+def LLC_get_recv_seq (ty : Nat) (m : Mem) (X : Nat) : Nat := if ty = 0 ∨ ty = 1 then memGet .le 0 m X else 0
+/-- `switch (type()) { case UNNUMBERED: return; case INFORMATION: info.recv_seq_num = v; break; case SUPERVISORY: super.recv_seq_num = v; }` -/
+def LLC_set_recv_seq (ty : Nat) (m : Mem) (v X : Nat) : Nat := if ty = 3 then X else memSet .le 0 m v X
+/-- `poll_final()`: every format has the bit; `control_field.<fmt>.poll_final_bit = value;` -/
+def LLC_get_poll_final (m : Mem) (X : Nat) : Nat := memGet .le 0 m X
+def LLC_set_poll_final (m : Mem) (v X : Nat) : Nat := memSet .le 0 m v X
+/-- `if (type() == SUPERVISORY) return control_field.super.supervisory_func; return 0;` -/
+def LLC_get_super_func (ty : Nat) (m : Mem) (X : Nat) : Nat := if ty = 1 then memGet .le 0 m X else 0
+/-- `if (type() != LLC::SUPERVISORY) return;  control_field.super.supervisory_func = new_func;` -/
+def LLC_set_super_func (ty : Nat) (m : Mem) (v X : Nat) : Nat := if ty ≠ 1 then X else memSet .le 0 m v X
+/-- `if (type() == UNNUMBERED) return (control_field.unnumbered.mod_func1 << 3) + control_field.unnumbered.mod_func2; return 0;` -/
+def LLC_get_modifier (ty : Nat) (m1 m2 : Mem) (X : Nat) : Nat :=
+  if ty = 3 then ((memGet .le 0 m1 X) <<< 3) + memGet .le 0 m2 X else 0
+/-- `if (type() != LLC::UNNUMBERED) return;  mod_func1 = mod_func >> 3;  mod_func2 = mod_func & 0x07;` -/
+def LLC_set_modifier (ty : Nat) (m1 m2 : Mem) (v X : Nat) : Nat :=
+  if ty ≠ 3 then X else memSet .le 0 m2 (v &&& 0x07) (memSet .le 0 m1 (v >>> 3) X)
+/-- the two bit groups seen through the one public pair (harness expressions):
+    `_hi`: `modifier_function() >> 3`, `modifier_function((v << 3) | (modifier_function() & 7))` -/
+def LLC_get_modifier_hi (ty : Nat) (m1 m2 : Mem) (X : Nat) : Nat := (LLC_get_modifier ty m1 m2 X) >>> 3
+def LLC_set_modifier_hi (ty : Nat) (m1 m2 : Mem) (v X : Nat) : Nat :=
+  LLC_set_modifier ty m1 m2 ((v <<< 3) ||| ((LLC_get_modifier ty m1 m2 X) &&& 7)) X
+/-- `_lo`: `modifier_function() & 7`, `modifier_function((modifier_function() & 0x18) | v)` -/
+def LLC_get_modifier_lo (ty : Nat) (m1 m2 : Mem) (X : Nat) : Nat := (LLC_get_modifier ty m1 m2 X) &&& 7
+def LLC_set_modifier_lo (ty : Nat) (m1 m2 : Mem) (v X : Nat) : Nat :=
+  LLC_set_modifier ty m1 m2 (((LLC_get_modifier ty m1 m2 X) &&& 0x18) ||| v) X
+end LLC
+
+section ICMPExtensionsStructure   -- src/icmp_extension.cpp:122-134, include/tins/icmp_extension.h:214-227 ; uint16_t version_and_reserved_
+def ldE := memGet .be 2
+def stE := memSet .be 2
+/-- `uint16_t value = Endian::be_to_host(version_and_reserved_); return (value >> 12) & 0xf;` -/
+def ICMPExt_get_version (X : Nat) : Nat := ((be16 (ldE ICMPExtensionsStructure_version_and_reserved_ X)) >>> 12) &&& 0xf
+/-- `uint16_t current_value = Endian::be_to_host(version_and_reserved_); current_value &= 0xfff; current_value |= value << 12;
+     version_and_reserved_ = Endian::host_to_be(current_value);` -/
+def ICMPExt_set_version (v X : Nat) : Nat :=
+  let current := (((be16 (ldE ICMPExtensionsStructure_version_and_reserved_ X)) &&& 0xfff) ||| (v <<< 12)) % 65536
+  stE ICMPExtensionsStructure_version_and_reserved_ (be16 current) X
+/-- `return value & 0xfff;` -/
+def ICMPExt_get_reserved (X : Nat) : Nat := (be16 (ldE ICMPExtensionsStructure_version_and_reserved_ X)) &&& 0xfff
+/-- `current_value &= 0xf000; current_value |= value;` -/
+def ICMPExt_set_reserved (v X : Nat) : Nat :=
+  let current := (((be16 (ldE ICMPExtensionsStructure_version_and_reserved_ X)) &&& 0xf000) ||| v) % 65536
+  stE ICMPExtensionsStructure_version_and_reserved_ (be16 current) X
+end ICMPExtensionsStructure
+
+section BootP   -- include/tins/bootp.h:268-279 ; sizeof(bootp_header) = 236, chaddr = bytes 28..43
+/-- `chaddr(const HWAddress<6>&)`: `for i < sizeof(chaddr): chaddr[i] = (i < min(6, sizeof chaddr)) ? new_chaddr[i] : 0;`
+    i.e. the six address bytes, then ten zero bytes (big-endian view: the address is the high part of the field) -/
+def BootP_set_chaddr_mac (v X : Nat) : Nat := putN 1616 48 v (putN 1536 80 0 X)
+/-- harness getter `HWAddress<6>(chaddr().begin())`: the first six bytes of the field -/
+def BootP_get_chaddr_mac (X : Nat) : Nat := getN 1616 48 X
+end BootP
+
 /-- the hand-written models, with the position each one is proved to implement (view of the class) -/
 def table : List CustomAcc := [
   ⟨"IP", "flags", 109, 3, 1, IP_get_flags, IP_set_flags⟩,
@@ -230,6 +297,55 @@ def table : List CustomAcc := [
   ⟨"Dot11BlockAckRequest", "bar_control", 128, 4, 1, LE16_get_low4 Dot11BlockAckRequest_bar_control_, LE16_set_low4 Dot11BlockAckRequest_bar_control_⟩,
   ⟨"Dot11BlockAckRequest", "fragment_number", 144, 4, 1, LE16_get_low4 Dot11BlockAckRequest_start_sequence_, LE16_set_low4 Dot11BlockAckRequest_start_sequence_⟩,
   ⟨"Dot11BlockAckRequest", "start_sequence", 148, 12, 1, LE16_get_hi12 Dot11BlockAckRequest_start_sequence_, LE16_set_hi12 Dot11BlockAckRequest_start_sequence_⟩,
+  ⟨"Dot11AssocRequest", "frag_num", 176, 4, 1, LE16_get_low4 Dot11AssocRequest_frag_seq, LE16_set_low4 Dot11AssocRequest_frag_seq⟩,
+  ⟨"Dot11AssocRequest", "seq_num", 180, 12, 1, LE16_get_hi12 Dot11AssocRequest_frag_seq, LE16_set_hi12 Dot11AssocRequest_frag_seq⟩,
+  ⟨"Dot11AssocResponse", "frag_num", 176, 4, 1, LE16_get_low4 Dot11AssocResponse_frag_seq, LE16_set_low4 Dot11AssocResponse_frag_seq⟩,
+  ⟨"Dot11AssocResponse", "seq_num", 180, 12, 1, LE16_get_hi12 Dot11AssocResponse_frag_seq, LE16_set_hi12 Dot11AssocResponse_frag_seq⟩,
+  ⟨"Dot11Authentication", "frag_num", 176, 4, 1, LE16_get_low4 Dot11Authentication_frag_seq, LE16_set_low4 Dot11Authentication_frag_seq⟩,
+  ⟨"Dot11Authentication", "seq_num", 180, 12, 1, LE16_get_hi12 Dot11Authentication_frag_seq, LE16_set_hi12 Dot11Authentication_frag_seq⟩,
+  ⟨"Dot11DataWDS", "frag_num", 176, 4, 1, LE16_get_low4 Dot11DataWDS_frag_seq, LE16_set_low4 Dot11DataWDS_frag_seq⟩,
+  ⟨"Dot11DataWDS", "seq_num", 180, 12, 1, LE16_get_hi12 Dot11DataWDS_frag_seq, LE16_set_hi12 Dot11DataWDS_frag_seq⟩,
+  ⟨"Dot11Deauthentication", "frag_num", 176, 4, 1, LE16_get_low4 Dot11Deauthentication_frag_seq, LE16_set_low4 Dot11Deauthentication_frag_seq⟩,
+  ⟨"Dot11Deauthentication", "seq_num", 180, 12, 1, LE16_get_hi12 Dot11Deauthentication_frag_seq, LE16_set_hi12 Dot11Deauthentication_frag_seq⟩,
+  ⟨"Dot11Disassoc", "frag_num", 176, 4, 1, LE16_get_low4 Dot11Disassoc_frag_seq, LE16_set_low4 Dot11Disassoc_frag_seq⟩,
+  ⟨"Dot11Disassoc", "seq_num", 180, 12, 1, LE16_get_hi12 Dot11Disassoc_frag_seq, LE16_set_hi12 Dot11Disassoc_frag_seq⟩,
+  ⟨"Dot11ProbeRequest", "frag_num", 176, 4, 1, LE16_get_low4 Dot11ProbeRequest_frag_seq, LE16_set_low4 Dot11ProbeRequest_frag_seq⟩,
+  ⟨"Dot11ProbeRequest", "seq_num", 180, 12, 1, LE16_get_hi12 Dot11ProbeRequest_frag_seq, LE16_set_hi12 Dot11ProbeRequest_frag_seq⟩,
+  ⟨"Dot11ProbeRequestWDS", "frag_num", 176, 4, 1, LE16_get_low4 Dot11ProbeRequestWDS_frag_seq, LE16_set_low4 Dot11ProbeRequestWDS_frag_seq⟩,
+  ⟨"Dot11ProbeRequestWDS", "seq_num", 180, 12, 1, LE16_get_hi12 Dot11ProbeRequestWDS_frag_seq, LE16_set_hi12 Dot11ProbeRequestWDS_frag_seq⟩,
+  ⟨"Dot11ProbeResponse", "frag_num", 176, 4, 1, LE16_get_low4 Dot11ProbeResponse_frag_seq, LE16_set_low4 Dot11ProbeResponse_frag_seq⟩,
+  ⟨"Dot11ProbeResponse", "seq_num", 180, 12, 1, LE16_get_hi12 Dot11ProbeResponse_frag_seq, LE16_set_hi12 Dot11ProbeResponse_frag_seq⟩,
+  ⟨"Dot11QoSData", "frag_num", 176, 4, 1, LE16_get_low4 Dot11QoSData_frag_seq, LE16_set_low4 Dot11QoSData_frag_seq⟩,
+  ⟨"Dot11QoSData", "seq_num", 180, 12, 1, LE16_get_hi12 Dot11QoSData_frag_seq, LE16_set_hi12 Dot11QoSData_frag_seq⟩,
+  ⟨"Dot11QoSDataWDS", "frag_num", 176, 4, 1, LE16_get_low4 Dot11QoSDataWDS_frag_seq, LE16_set_low4 Dot11QoSDataWDS_frag_seq⟩,
+  ⟨"Dot11QoSDataWDS", "seq_num", 180, 12, 1, LE16_get_hi12 Dot11QoSDataWDS_frag_seq, LE16_set_hi12 Dot11QoSDataWDS_frag_seq⟩,
+  ⟨"Dot11ReAssocRequest", "frag_num", 176, 4, 1, LE16_get_low4 Dot11ReAssocRequest_frag_seq, LE16_set_low4 Dot11ReAssocRequest_frag_seq⟩,
+  ⟨"Dot11ReAssocRequest", "seq_num", 180, 12, 1, LE16_get_hi12 Dot11ReAssocRequest_frag_seq, LE16_set_hi12 Dot11ReAssocRequest_frag_seq⟩,
+  ⟨"Dot11ReAssocResponse", "frag_num", 176, 4, 1, LE16_get_low4 Dot11ReAssocResponse_frag_seq, LE16_set_low4 Dot11ReAssocResponse_frag_seq⟩,
+  ⟨"Dot11ReAssocResponse", "seq_num", 180, 12, 1, LE16_get_hi12 Dot11ReAssocResponse_frag_seq, LE16_set_hi12 Dot11ReAssocResponse_frag_seq⟩,
+  ⟨"Dot11BlockAck", "bar_control", 128, 4, 1, LE16_get_low4 Dot11BlockAck_bar_control_, LE16_set_low4 Dot11BlockAck_bar_control_⟩,
+  ⟨"Dot11BlockAck", "fragment_number", 144, 4, 1, LE16_get_low4 Dot11BlockAck_start_sequence_, LE16_set_low4 Dot11BlockAck_start_sequence_⟩,
+  ⟨"Dot11BlockAck", "start_sequence", 148, 12, 1, LE16_get_hi12 Dot11BlockAck_start_sequence_, LE16_set_hi12 Dot11BlockAck_start_sequence_⟩,
+  ⟨"LLCInfo", "group", 0, 1, 1, LLC_get_lowbit LLCInfo_dsap, LLC_set_lowbit LLCInfo_dsap⟩,
+  ⟨"LLCInfo", "response", 8, 1, 1, LLC_get_lowbit LLCInfo_ssap, LLC_set_lowbit LLCInfo_ssap⟩,
+  ⟨"LLCSupervisory", "group", 0, 1, 1, LLC_get_lowbit LLCSupervisory_dsap, LLC_set_lowbit LLCSupervisory_dsap⟩,
+  ⟨"LLCSupervisory", "response", 8, 1, 1, LLC_get_lowbit LLCSupervisory_ssap, LLC_set_lowbit LLCSupervisory_ssap⟩,
+  ⟨"LLCUnnumbered", "group", 0, 1, 1, LLC_get_lowbit LLCUnnumbered_dsap, LLC_set_lowbit LLCUnnumbered_dsap⟩,
+  ⟨"LLCUnnumbered", "response", 8, 1, 1, LLC_get_lowbit LLCUnnumbered_ssap, LLC_set_lowbit LLCUnnumbered_ssap⟩,
+  ⟨"LLCInfo", "send_seq_number", 17, 7, 1, LLC_get_send_seq 0 LLCInfo_send_seq_num, LLC_set_send_seq 0 LLCInfo_send_seq_num⟩,
+  ⟨"LLCInfo", "poll_final", 24, 1, 1, LLC_get_poll_final LLCInfo_poll_final_bit, LLC_set_poll_final LLCInfo_poll_final_bit⟩,
+  ⟨"LLCInfo", "receive_seq_number", 25, 7, 1, LLC_get_recv_seq 0 LLCInfo_recv_seq_num, LLC_set_recv_seq 0 LLCInfo_recv_seq_num⟩,
+  ⟨"LLCSupervisory", "supervisory_function", 18, 2, 1, LLC_get_super_func 1 LLCSupervisory_supervisory_func, LLC_set_super_func 1 LLCSupervisory_supervisory_func⟩,
+  ⟨"LLCSupervisory", "poll_final", 24, 1, 1, LLC_get_poll_final LLCSupervisory_poll_final_bit, LLC_set_poll_final LLCSupervisory_poll_final_bit⟩,
+  ⟨"LLCSupervisory", "receive_seq_number", 25, 7, 1, LLC_get_recv_seq 1 LLCSupervisory_recv_seq_num, LLC_set_recv_seq 1 LLCSupervisory_recv_seq_num⟩,
+  ⟨"LLCUnnumbered", "poll_final", 20, 1, 1, LLC_get_poll_final LLCUnnumbered_poll_final_bit, LLC_set_poll_final LLCUnnumbered_poll_final_bit⟩,
+  ⟨"LLCUnnumbered", "modifier_function_hi", 18, 2, 1, LLC_get_modifier_hi 3 LLCUnnumbered_mod_func1 LLCUnnumbered_mod_func2,
+                                                       LLC_set_modifier_hi 3 LLCUnnumbered_mod_func1 LLCUnnumbered_mod_func2⟩,
+  ⟨"LLCUnnumbered", "modifier_function_lo", 21, 3, 1, LLC_get_modifier_lo 3 LLCUnnumbered_mod_func1 LLCUnnumbered_mod_func2,
+                                                       LLC_set_modifier_lo 3 LLCUnnumbered_mod_func1 LLCUnnumbered_mod_func2⟩,
+  ⟨"ICMPExtensionsStructure", "version", 12, 4, 1, ICMPExt_get_version, ICMPExt_set_version⟩,
+  ⟨"ICMPExtensionsStructure", "reserved", 0, 12, 1, ICMPExt_get_reserved, ICMPExt_set_reserved⟩,
+  ⟨"BootP", "chaddr_mac", 1536, 128, 1208925819614629174706176, BootP_get_chaddr_mac, BootP_set_chaddr_mac⟩,
   ⟨"VXLAN", "flags", 56, 8, 1, VXLAN_get_flags, VXLAN_set_flags⟩,
   ⟨"VXLAN", "vni", 8, 24, 1, VXLAN_get_vni, VXLAN_set_vni⟩
 ]
